@@ -189,6 +189,24 @@ def run(ctx):
             T.fail("spec", {"key": k.decode()}, "a fresh 16-byte key per connection", "repeated or malformed",
                    {"site": "handshake", "cls": "key-not-fresh"})
         seen.add(k)
+    # the same option objects reused for successive connections (reconnect loops do this): still a fresh key each time
+    for hdr in ({"X-App": "1"}, ["X-App: 1"], None):
+        seen2 = set()
+        for _ in range(3):
+            s = HandshakeSock([])
+            ws = websocket.WebSocket()
+            kw = {"header": hdr} if hdr is not None else {}
+            ws.connect("ws://sim.test/", socket=s, **kw)
+            k = [l.split(b":", 1)[1].strip() for l in bytes(s.request).split(b"\r\n") if l.lower().startswith(b"sec-websocket-key")]
+            T.case(("fresh-reuse", str(type(hdr)), len(seen2)), bucket="key-freshness")
+            if len(k) != 1 or k[0] in seen2:
+                T.fail("spec", {"header_option": str(hdr), "keys": [x.decode() for x in k]}, "a fresh key for every connection made with the same option objects",
+                       "repeated", {"site": "handshake", "cls": "key-not-fresh", "reuse": True},
+                       what="reusing the same header option object for several connections repeats the Sec-WebSocket-Key")
+                break
+            seen2.add(k[0])
+        if hdr is not None and hdr not in ({"X-App": "1"}, ["X-App: 1"]):
+            T.fail("spec", {"header_option": str(hdr)}, "caller's header object left unmodified", str(hdr), {"site": "handshake", "cls": "options-mutated"})
     T.validated = len(cases)
     T.dist["third_opinion"] = third
     return T.result(
